@@ -25,6 +25,7 @@ def BView : Pc → Pc
   | .uTrunc r => .uTrunc r
   | .eCons c o z => .eCons c o z
   | .eZh o z => .eZh o z
+  | .eMark _ o z | .eBack _ o z | .eNext _ o _ z | .eUnl _ o _ _ z | .eFix _ o _ _ z => .eZh o z
   | .called .dtor => .called .dtor
   | .dNext _ => .called .dtor
   | .dDesN .. => .called .dtor
@@ -1350,6 +1351,12 @@ theorem invB_step_alo {s s' : St} {t : Tid} {e : Ev} (ha : InvA s) (h : InvB s) 
       (by simp [BView, zhExact]) (by intro b; simp [BView, RegOwnP]) (by intro b; simp [BView, ScanP])
       (by intro b; simp [BView, ReapP]) (by intro b; simp [BView, DtorP])
 
+theorem invB_step_afl {s s' : St} {t : Tid} {e : Ev} (ha : InvA s) (h : InvB s) (hs : Step s t e s') (he : e.kind = .afl) : InvB s' := by
+  cases hs <;> cases he
+  all_goals (try (frameB h; done))
+  case regFail k w hpc hk hh =>
+    rcases hk with rfl | ⟨f, em, v, rfl⟩ <;> frameB h
+
 theorem invB_step_con {s s' : St} {t : Tid} {e : Ev} (ha : InvA s) (h : InvB s) (hs : Step s t e s') (he : e.kind = .con) : InvB s' := by
   cases hs <;> cases he
   all_goals (try (frameB h; done))
@@ -1664,6 +1671,7 @@ theorem invB_step {s s' : St} {t : Tid} {e : Ev} (ha : InvA s) (h : InvB s) (hs 
   · exact invB_step_mlk ha h hs hk
   · exact invB_step_mul ha h hs hk
   · exact invB_step_alo ha h hs hk
+  · exact invB_step_afl ha h hs hk
   · exact invB_step_con ha h hs hk
   · exact invB_step_des ha h hs hk
   · exact invB_step_fre ha h hs hk
